@@ -46,6 +46,7 @@ type Contract struct {
 	Inline     bool
 	Trusted    bool
 	GhostSets  []GhostSet
+	InlineCallees map[string]bool
 	AtCall     map[string][]Clause // callee short name -> extra obligations at this function's calls of it
 	Pure       bool // interface method / external: the result depends only on receiver identity and arguments
 	NoBody     bool // interface method or external: contract only
@@ -95,7 +96,7 @@ type ContractFile struct {
 }
 
 var clauseKeywords = map[string]bool{"requires": true, "ensures": true, "claims": true, "modifies": true, "panics_when": true, "loop": true,
-	"inline": true, "trusted": true, "nobody": true, "var": true, "assume": true, "prove": true, "props": true, "apply": true, "reveal": true, "unroll_calls": true, "bounded": true, "split": true, "pure_param": true, "impl": true, "pure": true, "at_call": true, "ghost_set": true}
+	"inline": true, "trusted": true, "nobody": true, "var": true, "assume": true, "prove": true, "props": true, "apply": true, "reveal": true, "unroll_calls": true, "bounded": true, "split": true, "pure_param": true, "impl": true, "pure": true, "at_call": true, "ghost_set": true, "inline_callee": true}
 
 func parseContractFile(path, pkgPath string) (*ContractFile, error) {
 	data, err := os.ReadFile(path)
@@ -272,6 +273,17 @@ func parseContractFile(path, pkgPath string) (*ContractFile, error) {
 			curSlot = nil
 		case "pure_param":
 			cur.PureParams = append(cur.PureParams, fields[1:]...)
+			curSlot = nil
+		case "inline_callee":
+			// inline_callee <name>...: calls of these functions made while verifying THIS function
+			// execute the callee's body even though it has a contract (harnesses that must not
+			// rely on an assumed contract)
+			if cur.InlineCallees == nil {
+				cur.InlineCallees = map[string]bool{}
+			}
+			for _, f := range fields[1:] {
+				cur.InlineCallees[f] = true
+			}
 			curSlot = nil
 		case "ghost_set":
 			// ghost_set <name> = <expr>: ghost assignment executed when the function returns
